@@ -23,7 +23,7 @@ def check_c10(tier):
             nonlocal nvec
             nvec += 1
             f.write(json.dumps({"parser": parser, "input": list(data), "note": note}) + "\n")
-        r = tlc("MC_BundleRead", "SPECIFICATION Spec\nCONSTANTS Bases = {1, 2}\nINVARIANTS UnmutatedReads\nCHECK_DEADLOCK FALSE\n", "C10/bundle", timeout=3000)
+        r = tlc("MC_BundleRead", "SPECIFICATION Spec\nCONSTANTS Bases = {1, 2, 5}\nINVARIANTS UnmutatedReads\nCHECK_DEADLOCK FALSE\n", "C10/bundle", timeout=3000)
         rep.add_tlc("MC_BundleRead", r)
         for t, o in r.lines:
             put("bundle.Read", o["file"], "MC_BundleRead/" + o["note"])
@@ -66,7 +66,7 @@ def check_c10(tier):
                 put("sh.ParseListOfLists", s, "MC_SH space")
                 put("sh.ParseParameterisedList", s, "MC_SH space")
     outp = os.path.join(wd, "run.ndjson")
-    vh_to_file(["total-run", tier], outp, stdin_path=vec, timeout=3400)
+    vlib.vh_resilient(["total-run", tier], outp, stdin_path=vec, timeout=3400)
     cases = {}
     for line in open(outp):
         d = json.loads(line)
